@@ -64,6 +64,17 @@ PROPS = {
               "thorough features), deep chains, wide groups; oracle: the definitions computed directly on the spec tree"),
         assumptions=["Python's round(x, 2) and float division are modelled bit-exactly in Z (Base/PyFloat.v) and compared on every case"],
     ),
+    "C18": dict(
+        props="Props/C18.v", tables=["core"],
+        suites=[suite_k.run],
+        rule=("suite K: str, pretty_str, get_operators/operands, get_features, the ten kind predicates, "
+              "left_right_features_from_simple_constraint, split_constraint, get_clauses on one constraint, compared with "
+              "the model, AST dumped before/after; streams: the seven documented forms over awkward names, all trees of "
+              "depth <= 2 over three names and the eight logical operators (a 4000-tree stratified sample in quick, all "
+              "33399 in thorough), random deeper trees (at most two XOR/EQUIVALENCE: their CNF is exponential), "
+              "arithmetic/aggregate trees, malformed shapes. oracle: complete truth tables. non-trivial = has an operator"),
+        assumptions=["trees with more than two XOR/EQUIVALENCE nodes or more than 24 operators are not generated at random depth (minutes per case in the implementation)"],
+    ),
 }
 
 
@@ -73,7 +84,13 @@ def finding_key(prop, failure):
     return fn(failure) if fn else None
 
 
-FINDING_KEYS = {}
+def _c18_key(f):
+    if f["clause"] == "split:equivalent" and ("(op XOR)" in f["case"] or "(op EQUIVALENCE)" in f["case"]):
+        return "core-simplify-xor-equivalence"
+    return None
+
+
+FINDING_KEYS = {"C18": _c18_key}
 
 
 def replay(ctx, info, path):
